@@ -11,6 +11,7 @@ package webdoc
 //@   assigns webdoc.WebDocumentBuilder.*, webdoc.TextBuilder.*, webdoc.Document.Elements, builder
 //@   assigns_rows db.document.Elements, db.textBuilder.textNodes, db.actionStack
 //@   fresh_assigns webdoc.Text.*, webdoc.BaseElement.*, webdoc.Table.*, webdoc.ElementAction.*, maps, elems(string), elems(ref), cell(Ref), cell(Slice)
+//@   ensures #rows-kept rowKept(db.document.Elements, old(db.document.Elements)) && rowKept(db.textBuilder.textNodes, old(db.textBuilder.textNodes)) && rowKept(db.actionStack, old(db.actionStack)) && db.document == old(db.document) && db.textBuilder == old(db.textBuilder)
 //@   requires wfBuilder(db)
 //@   ensures wfBuilder(db) && db.document == old(db.document) && db.textBuilder == old(db.textBuilder) && db.pageURL == old(db.pageURL) && db.actionStack == old(db.actionStack)
 //@   ensures [C06] #text-carries-page-url implies(len(db.document.Elements) > old(len(db.document.Elements)),
@@ -40,6 +41,7 @@ package webdoc
 //@   assigns webdoc.WebDocumentBuilder.*, webdoc.TextBuilder.*, webdoc.Document.Elements, builder
 //@   assigns_rows db.document.Elements, db.textBuilder.textNodes, db.actionStack
 //@   fresh_assigns webdoc.Text.*, webdoc.BaseElement.*, webdoc.Table.*, webdoc.ElementAction.*, maps, elems(string), elems(ref), cell(Ref), cell(Slice)
+//@   ensures #rows-kept rowKept(db.document.Elements, old(db.document.Elements)) && rowKept(db.textBuilder.textNodes, old(db.textBuilder.textNodes)) && rowKept(db.actionStack, old(db.actionStack)) && db.document == old(db.document) && db.textBuilder == old(db.textBuilder)
 //@   requires wfBuilder(db)
 //@   ensures wfBuilder(db)
 //@   ensures [C06] #table-carries-page-url typeis(db.document.Elements[len(db.document.Elements)-1], *Table) &&
@@ -50,6 +52,7 @@ package webdoc
 //@   assigns webdoc.WebDocumentBuilder.*, webdoc.TextBuilder.*, webdoc.Document.Elements, builder
 //@   assigns_rows db.document.Elements, db.textBuilder.textNodes, db.actionStack
 //@   fresh_assigns webdoc.Text.*, webdoc.BaseElement.*, webdoc.Table.*, webdoc.ElementAction.*, maps, elems(string), elems(ref), cell(Ref), cell(Slice)
+//@   ensures #rows-kept rowKept(db.document.Elements, old(db.document.Elements)) && rowKept(db.textBuilder.textNodes, old(db.textBuilder.textNodes)) && rowKept(db.actionStack, old(db.actionStack)) && db.document == old(db.document) && db.textBuilder == old(db.textBuilder)
 //@   requires wfBuilder(db)
 //@   ensures wfBuilder(db) && db.flush
 
@@ -57,6 +60,7 @@ package webdoc
 //@   assigns webdoc.WebDocumentBuilder.*, webdoc.TextBuilder.*, webdoc.Document.Elements, builder
 //@   assigns_rows db.document.Elements, db.textBuilder.textNodes, db.actionStack
 //@   fresh_assigns webdoc.Text.*, webdoc.BaseElement.*, webdoc.Table.*, webdoc.ElementAction.*, maps, elems(string), elems(ref), cell(Ref), cell(Slice)
+//@   ensures #rows-kept rowKept(db.document.Elements, old(db.document.Elements)) && rowKept(db.textBuilder.textNodes, old(db.textBuilder.textNodes)) && rowKept(db.actionStack, old(db.actionStack)) && db.document == old(db.document) && db.textBuilder == old(db.textBuilder)
 //@   requires wfBuilder(db) && e != nil
 //@   ensures wfBuilder(db)
 //@   ensures [C03] #start-never-flushes len(db.document.Elements) == old(len(db.document.Elements)) && len(db.actionStack) == old(len(db.actionStack)) + 1
@@ -65,6 +69,7 @@ package webdoc
 //@   assigns webdoc.WebDocumentBuilder.*, webdoc.TextBuilder.*, webdoc.Document.Elements, builder
 //@   assigns_rows db.document.Elements, db.textBuilder.textNodes, db.actionStack
 //@   fresh_assigns webdoc.Text.*, webdoc.BaseElement.*, webdoc.Table.*, webdoc.ElementAction.*, maps, elems(string), elems(ref), cell(Ref), cell(Slice)
+//@   ensures #rows-kept rowKept(db.document.Elements, old(db.document.Elements)) && rowKept(db.textBuilder.textNodes, old(db.textBuilder.textNodes)) && rowKept(db.actionStack, old(db.actionStack)) && db.document == old(db.document) && db.textBuilder == old(db.textBuilder)
 //@   requires wfBuilder(db)
 //@   ensures wfBuilder(db)
 //@   ensures [C01] #pop-is-guarded len(db.actionStack) == old(len(db.actionStack)) - 1 || (old(len(db.actionStack)) == 0 && len(db.actionStack) == 0)
@@ -73,7 +78,8 @@ package webdoc
 //@   assigns webdoc.WebDocumentBuilder.*, webdoc.TextBuilder.*, webdoc.Document.Elements, builder
 //@   assigns_rows db.document.Elements, db.textBuilder.textNodes, db.actionStack
 //@   fresh_assigns webdoc.Text.*, webdoc.BaseElement.*, webdoc.Table.*, webdoc.ElementAction.*, maps, elems(string), elems(ref), cell(Ref), cell(Slice)
-//@   requires wfBuilder(db) && wfNode(textNode) && inTreeOf(db.textBuilder, textNode)
+//@   ensures #rows-kept rowKept(db.document.Elements, old(db.document.Elements)) && rowKept(db.textBuilder.textNodes, old(db.textBuilder.textNodes)) && rowKept(db.actionStack, old(db.actionStack)) && db.document == old(db.document) && db.textBuilder == old(db.textBuilder)
+//@   requires wfBuilder(db) && canAdd(db.textBuilder.textNodes, textNode) && inTreeOf(db.textBuilder, textNode)
 //@   ensures wfBuilder(db)
 //@   ensures [C03] #flush-only-if-pending implies(!old(db.flush), len(db.document.Elements) == old(len(db.document.Elements)))
 
@@ -81,7 +87,8 @@ package webdoc
 //@   assigns webdoc.WebDocumentBuilder.*, webdoc.TextBuilder.*, webdoc.Document.Elements, builder
 //@   assigns_rows db.document.Elements, db.textBuilder.textNodes, db.actionStack
 //@   fresh_assigns webdoc.Text.*, webdoc.BaseElement.*, webdoc.Table.*, webdoc.ElementAction.*, maps, elems(string), elems(ref), cell(Ref), cell(Slice)
-//@   requires wfBuilder(db) && wfNode(br) && inTreeOf(db.textBuilder, br)
+//@   ensures #rows-kept rowKept(db.document.Elements, old(db.document.Elements)) && rowKept(db.textBuilder.textNodes, old(db.textBuilder.textNodes)) && rowKept(db.actionStack, old(db.actionStack)) && db.document == old(db.document) && db.textBuilder == old(db.textBuilder)
+//@   requires wfBuilder(db) && canAdd(db.textBuilder.textNodes, br) && inTreeOf(db.textBuilder, br)
 //@   ensures wfBuilder(db)
 //@   ensures [C03] #flush-only-if-pending implies(!old(db.flush), len(db.document.Elements) == old(len(db.document.Elements)))
 
@@ -89,6 +96,7 @@ package webdoc
 //@   assigns webdoc.WebDocumentBuilder.*, webdoc.TextBuilder.*, webdoc.Document.Elements, builder
 //@   assigns_rows db.document.Elements, db.textBuilder.textNodes, db.actionStack
 //@   fresh_assigns webdoc.Text.*, webdoc.BaseElement.*, webdoc.Table.*, webdoc.ElementAction.*, maps, elems(string), elems(ref), cell(Ref), cell(Slice)
+//@   ensures #rows-kept rowKept(db.document.Elements, old(db.document.Elements)) && rowKept(db.textBuilder.textNodes, old(db.textBuilder.textNodes)) && rowKept(db.actionStack, old(db.actionStack)) && db.document == old(db.document) && db.textBuilder == old(db.textBuilder)
 //@   requires wfBuilder(db) && tag != nil
 //@   ensures wfBuilder(db)
 //@   ensures [C07] #tag-appended len(db.document.Elements) >= 1 && db.document.Elements[len(db.document.Elements)-1] == tag
@@ -97,6 +105,7 @@ package webdoc
 //@   assigns webdoc.WebDocumentBuilder.*, webdoc.TextBuilder.*, webdoc.Document.Elements, builder
 //@   assigns_rows db.document.Elements, db.textBuilder.textNodes, db.actionStack
 //@   fresh_assigns webdoc.Text.*, webdoc.BaseElement.*, webdoc.Table.*, webdoc.ElementAction.*, maps, elems(string), elems(ref), cell(Ref), cell(Slice)
+//@   ensures #rows-kept rowKept(db.document.Elements, old(db.document.Elements)) && rowKept(db.textBuilder.textNodes, old(db.textBuilder.textNodes)) && rowKept(db.actionStack, old(db.actionStack)) && db.document == old(db.document) && db.textBuilder == old(db.textBuilder)
 //@   requires wfBuilder(db) && embed != nil
 //@   ensures wfBuilder(db)
 //@   ensures len(db.document.Elements) >= 1 && db.document.Elements[len(db.document.Elements)-1] == embed
@@ -121,7 +130,7 @@ package webdoc
 //@   assigns webdoc.TextBuilder.*, builder
 //@   assigns_rows tb.textNodes
 //@   fresh_assigns webdoc.Text.*, webdoc.BaseElement.*, elems(ref)
-//@   requires wfTB(tb) && wfNode(textNode) && inTreeOf(tb, textNode)
+//@   requires wfTB(tb) && canAdd(tb.textNodes, textNode) && inTreeOf(tb, textNode)
 //@   ensures wfTB(tb) && tb.firstNode == old(tb.firstNode) && (samerow(tb.textNodes, old(tb.textNodes)) || freshslice(tb.textNodes))
 //@   ensures [C02] #appends-the-node-or-nothing (len(tb.textNodes) == old(len(tb.textNodes)) || (len(tb.textNodes) == old(len(tb.textNodes)) + 1 && tb.textNodes[len(tb.textNodes)-1] == textNode))
 //@   ensures [C02] #prefix-unchanged forall(i, 0 <= i && i < old(len(tb.textNodes)), tb.textNodes[i] == old(tb.textNodes[i]))
@@ -130,7 +139,7 @@ package webdoc
 //@   assigns webdoc.TextBuilder.*, builder
 //@   assigns_rows tb.textNodes
 //@   fresh_assigns webdoc.Text.*, webdoc.BaseElement.*, elems(ref)
-//@   requires wfTB(tb) && wfNode(node) && inTreeOf(tb, node)
+//@   requires wfTB(tb) && canAdd(tb.textNodes, node) && inTreeOf(tb, node)
 //@   ensures wfTB(tb) && tb.firstNode == old(tb.firstNode) && len(tb.textNodes) == old(len(tb.textNodes)) + 1 && tb.textNodes[len(tb.textNodes)-1] == node && (samerow(tb.textNodes, old(tb.textNodes)) || freshslice(tb.textNodes))
 //@   ensures [C02] #prefix-unchanged forall(i, 0 <= i && i < old(len(tb.textNodes)), tb.textNodes[i] == old(tb.textNodes[i]))
 
